@@ -28,7 +28,7 @@ def P(**kw):
 PROPS = {
     "C01": P(
         technique="Lean 4 theorems (induction over byte lists / chunk lists) + differential correspondence model vs implementation",
-        level_text="Proof (round_trip): whatever WriteMessage(t, data) puts on the wire — any payload below 2^40 bytes, any write buffer size, either role — a connection of the opposite role reads as exactly (t, data) through any bufio size ≥ 125, any transport chunking and reads of any size, with no handler invoked and the following bytes untouched. Proof of the data transformations every message goes through, for all inputs: word-at-a-time masking = RFC byte-wise masking for every alignment/key/offset/length, masking involutive and offset-carrying across splits, truncWriter forwards all but the last 4 bytes for every chunking, strict frame decode inverts the writer's encode for every length < 2^63; the constructor always leaves room for a control frame (F4 repair) so a ping/pong of at most 125 bytes through WriteMessage is accepted and is exactly one control frame; the per-message round trip over the writer model (any buffer size, any split of writes, controls in between) and the reader's decoding of any conformant fragmentation are C02.message_roundtrip / C03.read_message. Tie: random write programs and random conformant streams run on the real package and on the compiled model, wire bytes and delivered bytes compared exactly; an independent RFC decoder/inflater judges sent vs delivered.",
+        level_text="Proof (round_trip): whatever WriteMessage(t, data) puts on the wire — any payload below 2^40 bytes, any write buffer size, either role — a connection of the opposite role reads as exactly (t, data) through any bufio size ≥ 125, any transport chunking and reads of any size, with no handler invoked and the following bytes untouched; for ANY NUMBER of messages (round_trip_sequence, by induction over the list): the peer reads exactly the list that was sent, each message once, in send order, and with pings/pongs sent in between (round_trip_sequence_with_controls) its handlers see exactly those control frames in send order; ReadFrom / io.Copy into a message writer (message_roundtrip_readFrom, readFrom_reports_all_data): a source handing out its bytes in reads of any sizes and ending with io.EOF, alone or with its last bytes, contributes exactly its bytes, and the count returned is exact. Proof of the data transformations every message goes through, for all inputs: word-at-a-time masking = RFC byte-wise masking for every alignment/key/offset/length, masking involutive and offset-carrying across splits, truncWriter forwards all but the last 4 bytes for every chunking, strict frame decode inverts the writer's encode for every length < 2^63; the constructor always leaves room for a control frame (F4 repair) so a ping/pong of at most 125 bytes through WriteMessage is accepted and is exactly one control frame; the per-message round trip over the writer model (any buffer size, any split of writes, controls in between) and the reader's decoding of any conformant fragmentation are C02.message_roundtrip / C03.read_message. Tie: random write programs and random conformant streams run on the real package and on the compiled model, wire bytes and delivered bytes compared exactly; an independent RFC decoder/inflater judges sent vs delivered.",
         level_note="compress/flate and encoding/json are parameters; end-to-end composition through a real connected pair is checked by correspondence (stream pair), the theorem composition is per side.",
         lean=["WS.Props.C01"],
         streams=[("w", 500, 12000), ("rconf", 500, 12000), ("unit", 300, 6000), ("pair", 150, 3000), ("join", 150, 3000)],
@@ -44,7 +44,7 @@ PROPS = {
     ),
     "C03": P(
         technique="Lean 4 refinement proof (bufio model ⊑ byte stream) + reader theorems + differential correspondence with an independent encoder",
-        level_text="Proof that the byte source the reader sees is a plain stream whatever the transport chunking, bufio size and read sizes (take/read/skip laws over the bufio model, all chunkings), and that unmasking is position-correct across reads; message level (read_message, abandon_then_next): from an idle reader a conformant message — any fragmentation incl. empty frames, any masking keys, pings/pongs between fragments, either role, any bufio size ≥ 125, any chunking — is announced with its type and read to exactly its payload with reads of any size, abandonment at any point leaves the next message intact; compressed messages (read_compressed_message): what reaches the decompressor is exactly the concatenated payloads, and the same bytes are refused when compression was not negotiated; JoinMessages (join_message, join_two_messages): payload ++ terminator per message for reads of any size. Tie: conformant streams from an independent Go encoder (all length classes, extreme keys, empty fragments, controls anywhere, deflate at several levels) fed through scripted transports with 6 chunkings and read with random programs (ReadMessage, NextReader+reads of 13 sizes, abandon, stale readers) on the real package and the model; every returned byte count compared.",
+        level_text="Proof that the byte source the reader sees is a plain stream whatever the transport chunking, bufio size and read sizes (take/read/skip laws over the bufio model, all chunkings), and that unmasking is position-correct across reads; message level (read_message, abandon_then_next): from an idle reader a conformant message — any fragmentation incl. empty frames, any masking keys, pings/pongs between fragments, either role, any bufio size ≥ 125, any chunking — is announced with its type and read to exactly its payload with reads of any size, abandonment at any point leaves the next message intact; any number of consecutive messages are read as exactly that list, in order, each once (read_messages, by induction); compressed messages (read_compressed_message): what reaches the decompressor is exactly the concatenated payloads, and the same bytes are refused when compression was not negotiated; JoinMessages (join_message, join_two_messages): payload ++ terminator per message for reads of any size. Tie: conformant streams from an independent Go encoder (all length classes, extreme keys, empty fragments, controls anywhere, deflate at several levels) fed through scripted transports with 6 chunkings and read with random programs (ReadMessage, NextReader+reads of 13 sizes, abandon, stale readers) on the real package and the model; every returned byte count compared.",
         level_note="compress/flate's inflate and its read sizes are environment (after a compressed read scenarios use whole-message reads); ReadJSON is ReadMessage + encoding/json (environment).",
         lean=["WS.Props.C03"],
         streams=[("rconf", 800, 16000), ("join", 200, 4000), ("zcut", 1200, 20000)],
@@ -55,7 +55,7 @@ PROPS = {
         level_text="Proof: the reader's header check reports an error exactly for the violations the property lists (all b0/b1, both roles, negotiated or not, idle or mid-message); the accepted close codes are exactly 1000-1003, 1007-1013, 3000-4999 (table regenerated from conn.go); the list of checks recognised in today's advanceFrame equals the modelled one (decide); at the API: after any conformant history the NextReader call (idle) or the Read call (inside a fragmented message) that meets the violating frame returns the protocol error with zero bytes, invokes no handler, latches the error and writes exactly one 1002 close frame. Tie: every violation class injected after random conformant prefixes, in both protocol states, on the real package and the model (errors, 1002 frames, handler logs compared exactly); oracle: nothing after the violation surfaces, same error twice, 1002 written.",
         level_note="RSV1 on control/continuation frames while negotiated is accepted by the code and is not in the property's list; a 1-byte close body is treated as no body.",
         lean=["WS.Props.C04"],
-        streams=[("rviol", 800, 16000)],
+        streams=[("rviol", 800, 16000), ("sched", 64, 1000)],
         assumptions=[ASSUME_BUFIO],
     ),
     "C05": P(
@@ -68,7 +68,7 @@ PROPS = {
     ),
     "C06": P(
         technique="Lean 4 theorems over the reader model (running sum with int64 wrap-around, all sources) + differential correspondence around the limit",
-        level_text="Proof: the frame whose header makes the running sum exceed the limit is refused before any payload byte is consumed, with ErrReadLimit and a 1009 close frame; a message whose data frames sum to at most L is read in full whatever its fragmentation, interleaved controls and read sizes (limit_admits, from C03.read_message); a new text/binary frame restarts the sum, so what the application did with earlier messages does not matter (regression sentinel for F2); a top-bit length is refused the same way with a 1009 (F3); the same at the API for NextReader (idle) and for Read inside a fragmented message (the continuation that takes the running sum over the limit), and an accepted frame adds exactly its length to the sum. Tie: limits chosen at message size -1/0/+1, fragmentations crossing at any frame, abandon points, huge and negative 64-bit lengths (rfuzz), on the real package and the model.",
+        level_text="Proof: the frame whose header makes the running sum exceed the limit is refused before any payload byte is consumed, with ErrReadLimit and a 1009 close frame; a message whose data frames sum to at most L is read in full whatever its fragmentation, interleaved controls and read sizes (limit_admits, from C03.read_message); a new text/binary frame restarts the sum, so what the application did with earlier messages does not matter (regression sentinel for F2); a top-bit length is refused the same way with a 1009 (F3); limit_refuses_claimed: for EVERY length a header can claim — 7-bit, 16-bit and 64-bit encodings, minimal or not, any value below 2^63, either role, first frame or continuation, any running sum including sums that leave the int64 range (wrap64) — the frame that takes the message over the limit in the mathematical integers is refused as soon as its header has arrived, nothing of the payload needing to be there; the same at the API for NextReader (idle) and for Read inside a fragmented message (the continuation that takes the running sum over the limit), and an accepted frame adds exactly its length to the sum. Tie: limits chosen at message size -1/0/+1, fragmentations crossing at any frame, abandon points, huge and negative 64-bit lengths (rfuzz), on the real package and the model.",
         level_note="Memory: the model has no allocator; the claim rests on the structure (Peek of at most 125 bytes, Read into the caller's buffer, Discard in 8 KiB steps) pinned by the make/index site inventory, plus a TotalAlloc bound measured in the fuzz stream.",
         lean=["WS.Props.C06"],
         streams=[("rlimit", 900, 16000), ("rfuzz", 400, 8000)],
@@ -79,7 +79,7 @@ PROPS = {
         level_text="Proof for the modelled code: the only panic the read path can produce is the documented one at the 1000th call on a failed connection; header reads and frame skips are bounded by what is asked for / present and end with an error on a short stream (no waiting for a claimed length); the models of the reader loops and of the header parsers are total functions whose recursion is bounded by the input length (accepted by Lean's termination checker). Go-level panics cannot arise in the model: they are covered by the regenerated inventory of every index / slice / make / type-assertion site in the functions fed by network input (a new or changed site breaks the tie) and by fuzz correspondence: mutated and random frame streams into connections of both roles with the model predicting every outcome exactly, random and mutated replies to Dial and to CONNECT, junk header values through the exported helpers, all under recover(), a watchdog and a TotalAlloc bound.",
         level_note="Partial: robustness of net/http, net/url, bufio, compress/flate and encoding/base64 internals is assumed; allocation is bounded by measurement in the fuzz streams plus the make-site inventory, not by a theorem about the Go allocator. Fuzzing supports the tie and the search for failing inputs; it is not the proof.",
         lean=["WS.Props.C07"],
-        streams=[("rfuzz", 1200, 30000), ("dfuzz", 200, 4000), ("unit", 400, 8000), ("srv", 300, 6000), ("cli", 300, 6000), ("rviol", 300, 6000), ("origin", 300, 6000)],
+        streams=[("rfuzz", 1200, 30000), ("dfuzz", 200, 4000), ("unit", 400, 8000), ("srv", 300, 6000), ("cli", 300, 6000), ("rviol", 300, 6000), ("origin", 300, 6000), ("zcut", 400, 8000)],
     ),
     "C08": P(
         technique="Lean 4 theorems over the reader+writer model + differential correspondence",
@@ -148,7 +148,7 @@ PROPS = {
         level_text="Proof over the plan machine (direct dial, plain HTTP CONNECT proxy, Upgrade after hijack; with/without timeout): whichever operation fails no Conn is returned and the net.Conn is closed, with the close the last operation; on success the Conn is open and the last deadline operation sets the zero time; with a timeout the first client operation arms the deadline. Tie/fault enumeration (exhaustive over the 9 configurations (server / client / client via proxy x HandshakeTimeout / no deadline / deadline from the caller's context) x every operation x {error, timeout, EOF}): the real Dial / Upgrade run over a scripted net.Conn that records every call; the recorded operation sequence must equal the model's plan in the fault-free run and in every faulted run; non-200 and malformed CONNECT replies abort the dial (F6 regression).",
         level_note="Partial: operations inside crypto/tls and the SOCKS5 client are observed in C18's matrix, not modelled; that a context deadline interrupts a TLS handshake is the Go runtime's.",
         lean=["WS.Props.C16"],
-        streams=[("hsfault", 9, 9), ("matrix", 60, 400)],
+        streams=[("hsfault", 9, 9), ("matrix", 60, 400), ("cli", 300, 6000)],
         exhaustive=True,
     ),
     "C17": P(
@@ -171,7 +171,7 @@ PROPS = {
         level_text="Proof: a prepared text/binary message sent on a connection between messages (either role, any buffer size, variant cached or rendered now) is accepted and the wire gains exactly one complete message with the type and payload given at creation — what C02.writeMessage_roundtrip says WriteMessage sends; a prepared ping/pong is exactly one control frame; the cache invariant behind this is established by NewPreparedMessage and preserved by every send; the cache key is computed from the connection's role and compression settings at the time of the call; an uncompressed image is what WriteMessage writes on a fresh connection of that role and decodes to exactly one message with the type and payload given at creation, for every size (beyond the 4096-byte internal buffer) and either role; sending never changes a cached entry nor the type/payload; a new entry is the rendering of exactly its key; a compressed image is cached only if it decodes to one well-formed compressed message whose payload is the deflate stream minus its tail; a hit is sent in one transport write under the connection's deadline. Tie: one or more PreparedMessages shared by 1-4 connections of random roles / compression settings / levels, random order, toggles between sends; exact wire bytes compared with the model (mask keys of rendered client frames included); independent decoder + inflater: wire message = (type, payload at creation).",
         level_note="Compressed images are environment answers validated by imageOk (frame boundaries depend on flate's chunking); concurrent first use of a key relies on sync.Once / sync.Mutex (C11 table: frames/once only in frame).",
         lean=["WS.Props.C19"],
-        streams=[("prep", 800, 16000), ("w", 300, 4000), ("conc", 60, 1000)],
+        streams=[("prep", 800, 16000), ("w", 300, 4000), ("conc", 60, 1000), ("wf8", 300, 4000)],
         race=[("conc", 300)],
         assumptions=[ASSUME_FLATE],
     ),
